@@ -2,3 +2,4 @@ import Props.GenFetcher
 open Model.SlicesGen
 #print axioms updateClock_eq
 #print axioms addNextEntry_eq
+#print axioms admission_eq
